@@ -36,7 +36,9 @@ def run(ctx):
                "MaxTotalSizePerPeer; the reserved percentage only lowers what is accepted (lemma Inv_Reserved, R1 only)",
                "PercentReserved in steps of 0.1 and IncreaseFactor in steps of 0.25 (exactly representable / far from a "
                "float32 rounding border); counters < 2^31 (uint32/uint64 wrap-around is out of TLC's reach)",
-               "calls are serialised by mutOperation in the code; the model has one action per call")
+               "IncreaseLoad is one atomic step in the model (lookup + decision + update in one critical section); the "
+               "concurrent stage calls the real IncreaseLoad from 8 goroutines and checks the same bounds on the totals of "
+               "every reset window (first size = largest accepted size, an upper bound of the first one)")
 
     def write(name, **kw):
         d = dict(spec="Spec", peers="1, 2", sizes="0, 1, 3, 5", cs="0, 2, 3", maxrecv=3, bases="1, 2", maxsizes="1, 4",
@@ -92,6 +94,20 @@ def run(ctx):
     st, line = vlib.validate_trace(ctx, sd, "Trace_Quota", "Trace_Quota.cfg", allp, nev, "C42/observed",
                                    divergence_is_violation=False, what="real quotaFloodPreventer run", timeout=1500,
                                    obs_cfg="Trace_QuotaObs.cfg")
+    # ---- concurrent stage: IncreaseLoad from 8 goroutines at once right after each Reset; TLC evaluates the C42 bounds
+    #      on the accepted totals of every (reset window, peer)
+    trc = ctx.path("trace-concurrent.ndjson")
+    hc = ctx.vh(exe, ["concurrent", ctx.seed, 1200 if q else 12000, trc], timeout=900)
+    ctx.cov(traces_validated_against_impl=int(hc.stats.get("windows", 0)), evaluations=int(hc.stats.get("calls", 0)),
+            concurrent_windows=int(hc.stats.get("windows", 0)),
+            concurrent_windows_with_more_than_one_accepted=int(hc.stats.get("windows_with_more_than_one_accepted", 0)))
+    vlib.validate_trace(ctx, sd, "Trace_Quota", "Trace_QuotaObs.cfg", trc, int(hc.stats.get("events", 0)), "C42/concurrent",
+                        divergence_is_violation=False, what="concurrent IncreaseLoad calls (totals of a reset window)",
+                        timeout=900)
+    if not q:
+        exer = ctx.go_build("vh-quota", race=True)
+        ctx.vh(exer, ["concurrent", ctx.seed, 600, ctx.path("trace-concurrent-race.ndjson")], timeout=900,
+               env={"GORACE": "halt_on_error=0 exitcode=66"})
     if not q and st == "accepted":
         def accept_everything(evs):
             # the trace with the most rejections: pretend every message was accepted
